@@ -187,6 +187,27 @@ def twin_case(seed, k):
     return c
 
 
+def union_eq_case():
+    """a stand-alone Eq asks PartialEq of every field type (as the code documents) -- for unions as for structs and enums"""
+    text = ("#[derive(::educe::Educe)]\n#[educe(Eq)]\npub union Un<T: ::core::marker::Copy> {\n    pub a: T,\n    pub b: u8,\n}\n"
+            "impl<T: ::core::marker::Copy> ::core::cmp::PartialEq for Un<T> { fn eq(&self, _o: &Self) -> bool { true } }\n"
+            "#[derive(::educe::Educe)]\n#[educe(Eq)]\npub struct St<T: ::core::marker::Copy> {\n    pub a: T,\n    pub b: u8,\n}\n"
+            "impl<T: ::core::marker::Copy> ::core::cmp::PartialEq for St<T> { fn eq(&self, _o: &Self) -> bool { true } }\n"
+            "#[derive(::educe::Educe)]\n#[educe(Eq)]\npub enum En<T: ::core::marker::Copy> {\n    V(T),\n    W { x: u8 },\n}\n"
+            "impl<T: ::core::marker::Copy> ::core::cmp::PartialEq for En<T> { fn eq(&self, _o: &Self) -> bool { true } }\n")
+    probes, lines, want = [], [], []
+    for ty in ("Un", "St", "En"):
+        for arg in ("Yes", "NoPartialEq"):
+            probes.append(("Eq", None, {"T": arg, "type": ty}))
+            lines.append("(%s) as u8" % probe("%s<%s%s>" % (ty, RT, arg), PROBE_TRAIT["Eq"]))
+            want.append(arg == "Yes")
+    drive = ("        let p: Vec<u8> = vec![%s];\n        %sbegin(); %sobs(\"ueq\", \"probes\", 0, -1, &format!(\"{:?}\", p));"
+             % (",\n            ".join(lines), RT, RT))
+    c = BH.Case("ueq", None, text, [], drive=drive, info={"probes": probes, "want": want, "twin": True, "pos": 0, "names": "T"})
+    c.module = lambda c=c: H.module(c.cid, c.text + "pub fn run() {\n    %sguarded(\"%s\", || {\n%s\n    });\n}\n" % (RT, c.cid, c.drive))
+    return c
+
+
 def judge_twin(chk, c, obs, dropped):
     if c.cid in dropped:
         d = dropped[c.cid][0]
@@ -333,7 +354,7 @@ def main(tier, seed, scale=1.0):
             if c is not None:
                 cases.append(c)
         if done == 0:
-            cases += [twin_case(seed, j) for j in range(max(40, n // 12))] + lacking_cases(seed)
+            cases += [twin_case(seed, j) for j in range(max(40, n // 12))] + lacking_cases(seed) + [union_eq_case()]
         d2 = B.run_inproc([(c.cid, c.text.replace("::educe::Educe", "Educe")) for c in cases if c.td is not None], items=True)
         obs, dropped, crashed, _, _ = BH.execute("c11", cases)
         for c in cases:
